@@ -24,6 +24,11 @@ Definition children_of (s : state) (x : node) : list nid :=
             | Some bd => match b_rhs bd with Some r => [r] | None => [] end
             | None => []
             end
+  | Some (KExpert x) =>
+      match experts s !! x with
+      | Some ex => omap (fun e => ed_child <$> edges s !! e) (ex_children ex)
+      | None => []
+      end
   end.
 
 Definition indexed {A} (l : list A) : list (Z * A) := imap (fun i x => (Z.of_nat i, x)) l.
@@ -47,6 +52,9 @@ Definition is_stale (s : state) (x : node) : bool :=
                      | Some vr => bool_decide (n_recomputed_at x < v_set_at vr)
                      | None => false end
   | Some (KConst _) => bool_decide (n_recomputed_at x = -1)
+  | Some (KExpert e) =>
+      match experts s !! e with Some ex => ex_force_stale ex | None => false end
+      || bool_decide (n_recomputed_at x = -1) || stale_wrt_child s x
   | Some _ => bool_decide (n_recomputed_at x = -1) || stale_wrt_child s x
   end.
 
@@ -82,9 +90,44 @@ Definition should_be_invalidated (s : state) (x : node) : bool :=
       | Some bd => match nodes s !! b_lhs bd with Some l => negb (n_valid l) | None => false end
       | None => false end
   | Some (KBindMain _ lc) => match nodes s !! lc with Some l => negb (n_valid l) | None => false end
+  | Some (KExpert _) => false
   | Some _ => existsb (fun c => match nodes s !! c with Some cx => negb (n_valid cx) | None => false end)
                       (children_of s x)
   end.
+
+(* ------------------------------------------------------------ user code *)
+(* every invocation of a user closure is a crash point *)
+Definition user_call : M unit :=
+  modify (fun s => s <| inv_count := S (inv_count s) |>) ;;;
+  s <- get ;;
+  if bool_decide (crash_at s = Some (inv_count s)) then panic PInjected else ret tt.
+
+(* ------------------------------------------------------------ expert nodes, part 1 (kind/expert.rs) *)
+(* ExpertEdge::on_change (kind/expert.rs:49): the callback gets the child's current value *)
+Definition edge_on_change (p : nid) (e : nat) : M unit :=
+  ed <- get_edge e ;;
+  if ed_cb ed then
+    v <- value_of (ed_child ed) ;;
+    match v with
+    | None => ret tt              (* linked before the child has a value, or the child is invalid *)
+    | Some v => user_call ;;; emit (EvEdgeCb p e v) ;;; upd_edge e (fun ed => ed <| ed_seen := Some v |>)
+    end
+  else ret tt.
+
+(* ExpertNode::run_edge_callback (kind/expert.rs:198) *)
+Definition run_edge_callback (p : nid) (x : nat) (ci : Z) : M unit :=
+  ex <- get_expert x ;;
+  if ex_fire_all ex then ret tt else
+  match zget (ex_children ex) ci with
+  | None => ret tt
+  | Some e => edge_on_change p e
+  end.
+
+(* ExpertNode::observability_change (kind/expert.rs:185) *)
+Definition observability_change (p : nid) (x : nat) (b : bool) : M unit :=
+  user_call ;;; emit (EvObsChange p b) ;;;
+  if b then ret tt
+  else upd_expert x (fun ex => ex <| ex_fire_all := true |> <| ex_num_invalid := 0 |>).
 
 (* ------------------------------------------------------------ recompute heap (recompute_heap.rs) *)
 Definition rch_max_allowed (s : state) : Z := zlen (rch_queues s) - 1.
@@ -462,7 +505,12 @@ Fixpoint became_necessary (fuel : nat) (n : nid) : M unit :=
     dassert (x <- get_node n ;; ret (is_necessary x)) 202 ;;;
     s <- get ;;
     x <- get_node n ;;
-    if is_stale s x then rch_insert n else ret tt
+    (if is_stale s x then rch_insert n else ret tt) ;;;
+    x <- get_node n ;;
+    match node_kind x with
+    | Some (KExpert e) => observability_change n e true
+    | _ => ret tt
+    end
   end
 with add_parent_without_adjusting_heights (fuel : nat) (child : nid) (ci : Z) (parent : nid) : M unit :=
   match fuel with
@@ -474,7 +522,13 @@ with add_parent_without_adjusting_heights (fuel : nat) (child : nid) (ci : Z) (p
     add_parent child ci parent ;;;
     (if n_valid c then ret tt
      else modify (fun s => s <| prop_inv := prop_inv s ++ [parent] |>)) ;;;
-    (if was_necessary then ret tt else became_necessary f child)
+    (if was_necessary then ret tt else became_necessary f child) ;;;
+    (* an expert parent that has already run hears about the new child at once *)
+    p <- get_node parent ;;
+    match node_kind p with
+    | Some (KExpert e) => run_edge_callback parent e ci
+    | _ => ret tt
+    end
   end.
 
 (* remove_children (node.rs:1810), check_if_unnecessary (node.rs:560), became_unnecessary (node.rs:566) *)
@@ -505,6 +559,10 @@ with became_unnecessary (fuel : nat) (n : nid) : M unit :=
     set_height n (-1) ;;;
     remove_children f n ;;;
     x <- get_node n ;;
+    (match node_kind x with
+     | Some (KExpert e) => observability_change n e false
+     | _ => ret tt
+     end) ;;;
     (match node_kind x with
      | Some (KMapRef _ _) => upd_node n (fun x => x <| n_mapref_did_change := true |>)
      | _ => ret tt
@@ -571,6 +629,7 @@ Fixpoint propagate_invalidity (fuel : nat) : M unit :=
            (* propagate_invalidity_helper (node.rs:410): debug builds panic for kinds other than BindMain *)
            (match node_kind x with
             | Some (KBindMain _ _) => ret tt
+            | Some (KExpert e) => upd_expert e (fun ex => ex <| ex_num_invalid := ex_num_invalid ex + 1 |>)
             | _ => d <- gets debug ;; if d : bool then panic (PDebugAssert 206) else ret tt
             end) ;;;
            x <- get_node n ;;
@@ -677,13 +736,6 @@ Definition observer_read (o : oid) : M (val + Z) :=
     end
   end.
 
-(* ------------------------------------------------------------ user code *)
-(* every invocation of a user closure is a crash point *)
-Definition user_call : M unit :=
-  modify (fun s => s <| inv_count := S (inv_count s) |>) ;;;
-  s <- get ;;
-  if bool_decide (crash_at s = Some (inv_count s)) then panic PInjected else ret tt.
-
 (* impl Drop for Var (public.rs:272): the last handle queues the var on dead_vars *)
 Definition drop_var_handle (x : vid) : M unit :=
   v <- get_var x ;;
@@ -696,7 +748,155 @@ Definition drop_var_handle (x : vid) : M unit :=
 Definition with_var_handle (x : vid) (m : M unit) : M unit :=
   v <- get_var x ;; if bool_decide (v_handles v = 0%nat) then ret tt else m.
 
-Definition run_effect (arg : val) (e : effect) : M unit :=
+(* ------------------------------------------------------------ expert nodes, part 2 (node.rs:1140-1300, state/expert.rs) *)
+(* assert_currently_running_node_is_child (node.rs:1146): debug builds only *)
+Definition assert_running_is_child (n : nid) : M unit :=
+  d <- gets debug ;;
+  if d : bool then
+    s <- get ;;
+    match cur_running s with
+    | None => panic POnlyDuringStabilise
+    | Some c =>
+        cx <- get_node c ;;
+        x <- get_node n ;;
+        if n_live cx && bool_decide (c ∈ children_of s x) then ret tt else panic PNotAChild
+    end
+  else ret tt.
+
+(* expert_make_stale (node.rs:1167) *)
+Definition expert_make_stale (n : nid) : M unit :=
+  x <- get_node n ;;
+  match node_kind x with
+  | Some (KExpert e) =>
+    assert_running_is_child n ;;;
+    ex <- get_expert e ;;
+    if ex_force_stale ex then ret tt else
+    upd_expert e (fun ex => ex <| ex_force_stale := true |>) ;;;
+    x <- get_node n ;;
+    if is_necessary x && negb (in_rch x) then rch_insert n else ret tt
+  | _ => ret tt
+  end.
+
+(* Node::add_dependency(_with) + expert_add_dependency (node.rs:1187).  Returns the edge (what the
+   Dependency points to); when the node is not a valid expert node the edge is dropped at once. *)
+Definition expert_add_dependency (fuel : nat) (n child : nid) (cb : bool) : M nat :=
+  s <- get ;;
+  let eid := length (edges s) in
+  x <- get_node n ;;
+  match node_kind x with
+  | Some (KExpert e) =>
+    ex <- get_expert e ;;
+    let ci := zlen (ex_children ex) in
+    modify (fun s => s <| edges := edges s ++ [Edge child cb (Some ci) None] |>) ;;;
+    upd_expert e (fun ex => ex <| ex_children := ex_children ex ++ [eid] |> <| ex_force_stale := true |>) ;;;
+    x <- get_node n ;;
+    (if is_necessary x then
+       state_add_parent fuel child ci n ;;;
+       dassert (x <- get_node n ;; s <- get ;; ret (needs_to_be_computed s x)) 410 ;;;
+       x <- get_node n ;;
+       if in_rch x then ret tt else rch_insert n
+     else ret tt) ;;;
+    ret eid
+  | _ =>
+    modify (fun s => s <| edges := edges s ++ [Edge child cb None None] |>) ;;; ret eid
+  end.
+
+(* expert_swap_children_except_in_kind (node.rs:1267) *)
+Definition expert_swap_children_except_in_kind (n child1 : nid) (ci1 : Z) (child2 : nid) (ci2 : Z) : M unit :=
+  dassert (s <- get ;; x <- get_node n ;;
+           ret (bool_decide (zget (children_of s x) ci1 = Some child1) && bool_decide (zget (children_of s x) ci2 = Some child2))) 430 ;;;
+  (* the index arrays of parent, child1 and child2 are mutably borrowed together (one borrow when the two
+     edges lead to the same child) *)
+  (if bool_decide (n = child1) || bool_decide (n = child2) then panic (PBorrow 431) else ret tt) ;;;
+  p <- get_node n ;;
+  c1 <- get_node child1 ;;
+  c2 <- get_node child2 ;;
+  match zget (n_pix_in_child p) ci1, zget (n_pix_in_child p) ci2 with
+  | Some i1, Some i2 =>
+    dassert (ret (bool_decide (zget (n_cix_in_parent c1) i1 = Some ci1))) 432 ;;;
+    dassert (ret (bool_decide (zget (n_cix_in_parent c2) i2 = Some ci2))) 433 ;;;
+    (if bool_decide (0 <= i1 < zlen (n_cix_in_parent c1)) && bool_decide (0 <= i2 < zlen (n_cix_in_parent c2))
+     then ret tt else panic (PIndex 434)) ;;;
+    upd_node child1 (fun c => c <| n_cix_in_parent := zset (n_cix_in_parent c) i1 ci2 |>) ;;;
+    upd_node child2 (fun c => c <| n_cix_in_parent := zset (n_cix_in_parent c) i2 ci1 |>) ;;;
+    upd_node n (fun p => p <| n_pix_in_child := zset (zset (n_pix_in_child p) ci1 i2) ci2 i1 |>)
+  | _, _ => panic (PIndex 435)
+  end.
+
+(* Node::remove_dependency + expert_remove_dependency (node.rs:1215) *)
+Definition expert_remove_dependency (fuel : nat) (n : nid) (eid : nat) : M unit :=
+  ed <- get_edge eid ;;
+  (* dep.edge.upgrade().unwrap(): the edge lives as long as it is among some node's children *)
+  match ed_index ed with
+  | None => panic (PUnwrapNone 420)
+  | Some edge_index =>
+    x <- get_node n ;;
+    match node_kind x with
+    | Some (KExpert e) =>
+      assert_running_is_child n ;;;
+      ex <- get_expert e ;;
+      match stdpp.list.last (ex_children ex) with
+      | None => panic (PUnwrapNone 421)
+      | Some last_edge =>
+        led <- get_edge last_edge ;;
+        match ed_index led with
+        | None => panic (PUnwrapNone 422)
+        | Some last_index =>
+          (if bool_decide (edge_index = last_index) then ret tt else
+             x <- get_node n ;;
+             (if is_necessary x
+              then expert_swap_children_except_in_kind n (ed_child ed) edge_index (ed_child led) last_index
+              else ret tt) ;;;
+             (* ExpertNode::swap_children (kind/expert.rs:141) *)
+             (match zget (ex_children ex) edge_index, zget (ex_children ex) last_index with
+              | Some a, Some b =>
+                  upd_edge a (fun d => d <| ed_index := Some last_index |>) ;;;
+                  upd_edge b (fun d => d <| ed_index := Some edge_index |>) ;;;
+                  upd_expert e (fun ex => ex <| ex_children := zset (zset (ex_children ex) edge_index b) last_index a |>)
+              | _, _ => panic (PIndex 423)
+              end)) ;;;
+          upd_expert e (fun ex => ex <| ex_force_stale := true |>) ;;;
+          dassert (x <- get_node n ;; s <- get ;; ret (is_stale s x)) 424 ;;;
+          x <- get_node n ;;
+          (if is_necessary x then
+             (* expert_remove_child (node.rs:1296) *)
+             remove_parent (ed_child ed) last_index n ;;;
+             check_if_unnecessary fuel (ed_child ed) ;;;
+             x <- get_node n ;;
+             (if in_rch x then ret tt else rch_insert n) ;;;
+             c <- get_node (ed_child ed) ;;
+             (* decr_invalid_children (kind/expert.rs:118) *)
+             if n_valid c then ret tt else upd_expert e (fun ex => ex <| ex_num_invalid := ex_num_invalid ex - 1 |>)
+           else ret tt) ;;;
+          (* pop_child_edge (kind/expert.rs:158) *)
+          ex <- get_expert e ;;
+          match stdpp.list.last (ex_children ex) with
+          | None => panic (PUnwrapNone 425)
+          | Some popped =>
+            upd_expert e (fun ex => ex <| ex_children := removelast (ex_children ex) |> <| ex_force_stale := true |>) ;;;
+            upd_edge popped (fun d => d <| ed_index := None |>) ;;;
+            dassert (ret (bool_decide (popped = eid))) 426
+          end
+        end
+      end
+    | _ => ret tt
+    end
+  end.
+
+(* expert::invalidate (state/expert.rs:63) *)
+Definition expert_invalidate (fuel : nat) (n : nid) : M unit :=
+  assert_running_is_child n ;;;
+  invalidate_node fuel n ;;;
+  propagate_invalidity fuel.
+
+(* a closure reaches a node through the program's handle table when it runs *)
+Definition with_handle (h : nat) (k : nid -> M unit) : M unit :=
+  s <- get ;; match handles s !! h with Some (Some n) => k n | _ => ret tt end.
+Definition slot_get (sl : nat) : M (option nat) := s <- get ;; ret (mjoin (dep_slots s !! sl)).
+Definition slot_set (sl : nat) (v : option nat) : M unit :=
+  modify (fun s => s <| dep_slots := <[sl := v]> (dep_slots s ++ replicate (S sl - length (dep_slots s)) None) |>).
+
+Definition run_effect (fuel : nat) (arg : val) (e : effect) : M unit :=
   match e with
   | EDropVar x => with_var_handle x (drop_var_handle x)
   | ESet x v => with_var_handle x (var_write x (fun _ => VInt v) ;;; ret tt)
@@ -708,12 +908,36 @@ Definition run_effect (arg : val) (e : effect) : M unit :=
   | EGet x => with_var_handle x (v <- get_var x ;; emit (EvEffGet x (v_value v)))
   | ERead o => r <- observer_read o ;;
                emit (EvEffRead o (match r with inl v => inl (Ok v) | inr c => inr c end))
+  | EAddDep e h sl cb =>
+      with_handle e (fun en => with_handle h (fun child =>
+        d <- expert_add_dependency fuel en child cb ;; slot_set sl (Some d)))
+  | ERemoveDep e sl =>
+      with_handle e (fun en =>
+        d <- slot_get sl ;;
+        match d with
+        | Some d => slot_set sl None ;;; expert_remove_dependency fuel en d
+        | None => ret tt
+        end)
+  | ESwapDep e sl hs cb =>
+      with_handle e (fun en =>
+        match hs !! Z.to_nat (as_int arg `mod` zlen hs) with
+        | Some h =>
+          with_handle h (fun child =>
+            new <- expert_add_dependency fuel en child cb ;;
+            prev <- slot_get sl ;;
+            slot_set sl None ;;;
+            (match prev with Some p => expert_remove_dependency fuel en p | None => ret tt end) ;;;
+            slot_set sl (Some new))
+        | None => ret tt
+        end)
+  | EMakeStale e => with_handle e expert_make_stale
+  | EInvalidateExpert e => with_handle e (expert_invalidate fuel)
   | EStabilise => st <- gets st_status ;;
                   match st with NotStabilising => panic (PModelGap 10) | _ => panic PNestedStabilise end
   | EPanic => panic PInjected
   end.
 
-Definition run_effects (arg : val) (effs : list effect) : M unit := forM_ effs (run_effect arg).
+Definition run_effects (fuel : nat) (arg : val) (effs : list effect) : M unit := forM_ effs (run_effect fuel arg).
 
 (* Cutoff::should_cutoff (cutoff.rs:64) *)
 Definition should_cutoff (n : nid) (c : cutoff) (old new : val) : M bool :=
@@ -761,6 +985,7 @@ Fixpoint child_changed (fuel : nat) (p child : nid) (ci : Z) (old : option val) 
             end
           else ret tt)
       end
+    | Some (KExpert e) => run_edge_callback p e ci
     | Some _ => ret tt
     end
   end.
@@ -778,7 +1003,7 @@ Definition parent_iter_can_recompute_now (parent child : nid) : M bool :=
       else ret false in
     crn <- match k with
            | KConst _ | KVar _ => panic (PAssert 310)
-           | KFold _ _ _ => ret false
+           | KFold _ _ _ | KExpert _ => ret false
            | KMap _ cs =>
                if bool_decide (length cs = 1%nat) then
                  sh <- scope_height (n_created_in p) ;; settled sh
@@ -1059,7 +1284,9 @@ Definition copy_child_bindrhs (fuel : nat) (n child : nid) : M (option nid) :=
 (* recompute_one (node.rs:604) *)
 Definition recompute_one (fuel : nat) (n : nid) : M (option nid) :=
   emit (EvRecompute n) ;;;
-  modify (fun s => s <| num_recomputed := num_recomputed s + 1 |>) ;;;
+  (* debug builds also note the currently running node (only_in_debug, node.rs:617) *)
+  modify (fun s => s <| num_recomputed := num_recomputed s + 1 |>
+                     <| cur_running := if debug s then Some n else cur_running s |>) ;;;
   st <- gets stab_num ;;
   upd_node n (fun x => x <| n_recomputed_at := st |>) ;;;
   x <- get_node n ;;
@@ -1070,7 +1297,7 @@ Definition recompute_one (fuel : nat) (n : nid) : M (option nid) :=
       let r := fn_sem (c_fid f) (c_cap f) args in
       (if c_internal f then ret tt else
          user_call ;;;
-         run_effects (default VUnit (args !! 0%nat)) (c_effs f) ;;;
+         run_effects fuel (default VUnit (args !! 0%nat)) (c_effs f) ;;;
          emit (EvInv n (c_cap f) args r)) ;;;
       maybe_change_value fuel n r
   | Some (KVar v) =>
@@ -1084,7 +1311,7 @@ Definition recompute_one (fuel : nat) (n : nid) : M (option nid) :=
       let old := n_value x in
       upd_node n (fun x => x <| n_value := None |>) ;;;     (* current_value.take() *)
       user_call ;;;
-      run_effects input (c_effs f) ;;;
+      run_effects fuel input (c_effs f) ;;;
       let '(new, did_change) := wo_sem (c_fid f) (c_cap f) old input in
       emit (EvInv n (c_cap f) (match old with Some o => [o; input] | None => [input] end) new) ;;;
       upd_node n (fun x => x <| n_value := Some new |>) ;;;
@@ -1107,7 +1334,7 @@ Definition recompute_one (fuel : nat) (n : nid) : M (option nid) :=
       user_call ;;;
       emit (EvBindRun n (b_gen bd) lhsv) ;;;
       upd_bind b (fun bd => bd <| b_gen := b_gen bd + 1 |>) ;;;
-      run_effects lhsv (bf_effs (b_fn bd)) ;;;
+      run_effects fuel lhsv (bf_effs (b_fn bd)) ;;;
       rhs <- (match bf_templates (b_fn bd) with
               | [] => panic (PModelGap 30)
               | ts => match ts !! (Z.to_nat (as_int lhsv `mod` zlen ts)) with
@@ -1140,6 +1367,25 @@ Definition recompute_one (fuel : nat) (n : nid) : M (option nid) :=
       | None => panic (PUnwrapNone 345)
       | Some rhs => copy_child_bindrhs fuel n rhs
       end
+  | Some (KExpert e) =>
+      (* before_main_computation (kind/expert.rs:166) *)
+      ex <- get_expert e ;;
+      if bool_decide (0 < ex_num_invalid ex) then
+        invalidate_node fuel n ;;; propagate_invalidity fuel ;;; ret None
+      else
+        upd_expert e (fun ex => ex <| ex_force_stale := false |> <| ex_fire_all := false |>) ;;;
+        (if ex_fire_all ex then forM_ (ex_children ex) (edge_on_change n) else ret tt) ;;;
+        (* the recompute function of the harness *)
+        user_call ;;;
+        ex <- get_expert e ;;
+        total <- foldM (fun acc eid =>
+                   ed <- get_edge eid ;;
+                   if bool_decide (ex_mode ex = 0)
+                   then ret (acc + match ed_seen ed with Some v => as_int v | None => 0 end)
+                   else v <- unwrap_value (ed_child ed) 440 ;; ret (acc + as_int v))
+                 (ex_children ex) 0 ;;
+        emit (EvExpertRun n (VInt total)) ;;;
+        maybe_change_value fuel n (VInt total)
   end.
 
 (* recompute (node.rs:590): the flattened chain *)
